@@ -52,4 +52,40 @@ theorem extract_entries (w : W χ κ) (m : PMap κ) (k : Key) (c : κ) (h : extr
 
 end
 
+/-! ### free variables vs the planner's walker -/
+
+theorem mem_filter_not_contains (xs binds : List String) (x : String) :
+    x ∈ xs.filter (fun y => !binds.contains y) ↔ x ∈ xs ∧ x ∉ binds := by
+  simp [List.mem_filter]
+
+/-- a walker that descends into every variant finds every free variable -/
+theorem walker_complete (descends : EKind → Bool) (hall : ∀ k, descends k = true) (e : VE) :
+    ∀ x ∈ e.free, x ∈ e.walker descends := by
+  induction e with
+  | leaf reads => intro x hx; exact hx
+  | pair a b iha ihb =>
+    intro x hx
+    simp only [VE.free, VE.walker, List.mem_append] at hx ⊢
+    exact hx.elim (fun h => Or.inl (iha x h)) (fun h => Or.inr (ihb x h))
+  | node k binds outer inner iho ihs =>
+    intro x hx
+    simp only [VE.free, VE.walker, hall k, if_true, List.mem_append, mem_filter_not_contains] at hx ⊢
+    exact hx.elim (fun h => Or.inl (iho x h)) (fun h => Or.inr ⟨ihs x h.1, h.2⟩)
+
+/-- **pushdown_sound (scope)**: where the planner allows the filter, every free variable of the
+    value is bound — PROVIDED the walker's result contains the true free variables -/
+theorem placement_sound (descends : EKind → Bool) (bound : List String) (value : VE)
+    (hsup : ∀ x ∈ value.free, x ∈ value.walker descends)
+    (hallowed : placementAllowed descends bound value) : ScopeSound bound value :=
+  fun x hx => hallowed x (hsup x hx)
+
+/-- what scope-soundness buys: an evaluation that reads only the free variables gives, on the row
+    as it is at the placement point, the value it gives on the completed row -/
+theorem early_evaluation_agrees {ν β : Type} (eval : (String → Option ν) → β) (value : VE)
+    (hreads : ∀ r1 r2 : String → Option ν, (∀ x ∈ value.free, r1 x = r2 x) → eval r1 = eval r2)
+    (bound : List String) (hscope : ScopeSound bound value)
+    (early full : String → Option ν) (hext : ∀ x ∈ bound, early x = full x) :
+    eval early = eval full :=
+  hreads early full (fun x hx => hext x (hscope x hx))
+
 end Nervus.WherePush
